@@ -194,9 +194,31 @@ def _call(f, *a, **k):
         return None, _errclass(e)
 
 
+def _vcall(f, arr, *args):
+    """vectorised call -> (rows [(result, errclass)], flat result or None); when the call raises or returns the
+    wrong leading shape, fall back to one call per row (so that a raising implementation is reported per input)."""
+    np = _np()
+    try:
+        with np.errstate(all='ignore'):
+            res = np.asarray(f(arr, *args))
+        if res.shape[:1] != (len(arr),):
+            raise ValueError('shape')
+        return [(r, None) for r in res], res
+    except Exception:  # noqa
+        return [_call(f, np.asarray(row).tolist(), *args) for row in arr], None
+
+
 def _triples(N):
     r = range(-N, N + 1)
     return [(h, k, l) for h in r for k in r for l in r]
+
+
+def _ref_vector3to4(t):
+    """harness-side [uvw] -> [u' v' t w] in double arithmetic (only to *generate* non-integer quadruples)."""
+    np = _np()
+    u = (2 * t[0] - t[1]) / 3
+    v = (2 * t[1] - t[0]) / 3
+    return np.array([u, v, -(u + v), float(t[2])])
 
 
 def _generic_lengths(rng):
@@ -418,11 +440,11 @@ def correspond(ctx):
     atol_s = cm.fr(ATOL_GUARD)
 
     # ---- A. 3 <-> 4 conversions ---------------------------------------------------------
-    p34 = miller.plane3to4(T)
-    v34 = miller.vector3to4(T)
-    for t, r1, r2 in zip(tri, p34, v34):
-        B.add('plane3to4', 'p34 %d %d %d' % t, r1, None, _cmp_exact, list(t), sample={'op': 'plane3to4', 'hkl': list(t)})
-        B.add('vector3to4', 'v34 %d %d %d' % t, r2, None, _cmp_close(1e-14, 1e-15), list(t),
+    p34r, p34 = _vcall(miller.plane3to4, T)
+    v34r, v34 = _vcall(miller.vector3to4, T)
+    for t, (r1, e1), (r2, e2) in zip(tri, p34r, v34r):
+        B.add('plane3to4', 'p34 %d %d %d' % t, r1, e1, _cmp_exact, list(t), sample={'op': 'plane3to4', 'hkl': list(t)})
+        B.add('vector3to4', 'v34 %d %d %d' % t, r2, e2, _cmp_close(1e-14, 1e-15), list(t),
               sample={'op': 'vector3to4', 'uvw': list(t)})
     # shape variants of the same calls (list, single, nested leading shapes)
     _shape_variants(ctx, 'plane3to4', miller.plane3to4, T, p34)
@@ -431,12 +453,12 @@ def correspond(ctx):
     M = min(N, ctx.n(5, 8))
     quads_ok = [(h, k, -(h + k), l) for h in range(-M, M + 1) for k in range(-M, M + 1) for l in range(-M, M + 1)]
     Q = np.array(quads_ok)
-    p43 = miller.plane4to3(Q)
-    v43 = miller.vector4to3(Q)
-    for q, r1, r2 in zip(quads_ok, p43, v43):
-        B.add('plane4to3', f'p43 {atol_s} %d %d %d %d' % q, r1, None, _cmp_exact, list(q),
+    p43r, p43 = _vcall(miller.plane4to3, Q)
+    v43r, v43 = _vcall(miller.vector4to3, Q)
+    for q, (r1, e1), (r2, e2) in zip(quads_ok, p43r, v43r):
+        B.add('plane4to3', f'p43 {atol_s} %d %d %d %d' % q, r1, e1, _cmp_exact, list(q),
               sample={'op': 'plane4to3', 'hkil': list(q)})
-        B.add('vector4to3', f'v43 {atol_s} %d %d %d %d' % q, r2, None, _cmp_exact, list(q),
+        B.add('vector4to3', f'v43 {atol_s} %d %d %d %d' % q, r2, e2, _cmp_exact, list(q),
               sample={'op': 'vector4to3', 'uvtw': list(q)})
     _shape_variants(ctx, 'plane4to3', miller.plane4to3, Q, p43)
     _shape_variants(ctx, 'vector4to3', miller.vector4to3, Q, v43)
@@ -456,7 +478,7 @@ def correspond(ctx):
                          {'op': name, 'input': arr.tolist(), 'impl': _tolist(r)})
     # non-integer four-index vectors: images of vector3to4 (thirds), tiny and small guard offsets
     for t in rng.sample(tri, ctx.n(300, 3000)):
-        q = miller.vector3to4(list(t))
+        q = _ref_vector3to4(t)
         for off in (0.0, 1e-10, -1e-12, 1e-6, -1e-3):
             qq = q.copy()
             qq[2] += off
@@ -485,12 +507,13 @@ def correspond(ctx):
     for fam, box in fam_boxes:
         par = _params(box)
         for rtol, atol in ((1e-5, 1e-8), (2.0 ** -9, 2.0 ** -12)):
-            impl = (box.identifyfamily(rtol=rtol, atol=atol), [getattr(box, p)(rtol=rtol, atol=atol) for p in preds_box])
-            B.add('family:Box', _fam_line(par, rtol, atol), impl, None, _cmp_fam, {'cell': fam, 'params': par},
+            impl, e = _call(lambda: (box.identifyfamily(rtol=rtol, atol=atol),
+                                     [getattr(box, p)(rtol=rtol, atol=atol) for p in preds_box]))
+            B.add('family:Box', _fam_line(par, rtol, atol), impl, e, _cmp_fam, {'cell': fam, 'params': par},
                   sample={'op': 'identifyfamily', 'cell': fam, 'params': par})
-            impl2 = (crystalsystem.identifyfamily(box, rtol=rtol, atol=atol),
-                     [getattr(crystalsystem, p)(box, rtol=rtol, atol=atol) for p in preds_box])
-            B.add('family:crystalsystem', _fam_line(par, rtol, atol), impl2, None, _cmp_fam,
+            impl2, e = _call(lambda: (crystalsystem.identifyfamily(box, rtol=rtol, atol=atol),
+                                      [getattr(crystalsystem, p)(box, rtol=rtol, atol=atol) for p in preds_box]))
+            B.add('family:crystalsystem', _fam_line(par, rtol, atol), impl2, e, _cmp_fam,
                   {'cell': fam, 'params': par})
     # duck-typed parameter sets near the isclose boundary (stand-alone predicates read box.a .. box.gamma)
     from types import SimpleNamespace
@@ -508,9 +531,9 @@ def correspond(ctx):
         ga = rng.choice([near(90.0), near(120.0), near(al), cm.dyadic(rng, 50, 130, 2)])
         duck = SimpleNamespace(a=a, b=b, c=c, alpha=al, beta=be, gamma=ga)
         par = [a, b, c, al, be, ga]
-        impl = (crystalsystem.identifyfamily(duck, rtol=rtol, atol=atol),
-                [getattr(crystalsystem, p)(duck, rtol=rtol, atol=atol) for p in preds_box])
-        B.add('family:boundary', _fam_line(par, rtol, atol), impl, None, _cmp_fam,
+        impl, e = _call(lambda: (crystalsystem.identifyfamily(duck, rtol=rtol, atol=atol),
+                                 [getattr(crystalsystem, p)(duck, rtol=rtol, atol=atol) for p in preds_box]))
+        B.add('family:boundary', _fam_line(par, rtol, atol), impl, e, _cmp_fam,
               {'params': par, 'rtol': rtol, 'atol': atol})
     B.run()
 
@@ -525,19 +548,18 @@ def correspond(ctx):
         sel = tri if ci < exhaustive_cells else rng.sample(tri, ctx.n(300, 2000))
         S = np.array(sel)
         nz = [t for t in sel if t != (0, 0, 0)]
-        normals = box.plane_crystal_to_cartesian(np.array(nz))
-        for t, r in zip(nz, normals):
-            B.add('plane_normal', f'plane {hx} {atol_s} {Vs} %d %d %d' % t, r, None, _cmp_plane(Vfr),
+        nrows, normals = _vcall(box.plane_crystal_to_cartesian, np.array(nz))
+        for t, (r, e) in zip(nz, nrows):
+            B.add('plane_normal', f'plane {hx} {atol_s} {Vs} %d %d %d' % t, r, e, _cmp_plane(Vfr),
                   {'cell': label, 'vects': V.tolist(), 'hkl': list(t)},
                   sample={'op': 'plane_crystal_to_cartesian', 'cell': label, 'vects': V.tolist(), 'hkl': list(t)})
         r, e = _call(box.plane_crystal_to_cartesian, [0, 0, 0])
         B.add('plane_normal:zero', f'plane {hx} {atol_s} {Vs} 0 0 0', r, e, _cmp_plane(Vfr), {'cell': label}, nontrivial=False)
         _shape_variants(ctx, 'plane_crystal_to_cartesian', box.plane_crystal_to_cartesian, np.array(nz), normals,
                         extra={'cell': label})
-        carts = box.vector_crystal_to_cartesian(S)
-        exact = label in ('dyadic', 'cubic', 'orthorhombic', 'tetragonal')
-        for t, r in zip(sel[::ctx.n(7, 3)], carts[::ctx.n(7, 3)]):
-            B.add('vector_cart', f'vc2c {hx} {atol_s} {Vs} %d %d %d' % t, r, None,
+        crows, carts = _vcall(box.vector_crystal_to_cartesian, S)
+        for t, (r, e) in zip(sel[::ctx.n(7, 3)], crows[::ctx.n(7, 3)]):
+            B.add('vector_cart', f'vc2c {hx} {atol_s} {Vs} %d %d %d' % t, r, e,
                   _cmp_close(1e-14, 1e-13), {'cell': label, 'vects': V.tolist(), 'uvw': list(t)},
                   sample={'op': 'vector_crystal_to_cartesian', 'cell': label, 'uvw': list(t)})
         # four-index input: hexagonal cells accept (guard), all others raise
@@ -553,7 +575,7 @@ def correspond(ctx):
                           {'cell': label, 'vects': V.tolist(), 'hkil': list(qq)})
         if ishex_model:
             for t in rng.sample(tri, ctx.n(100, 800)):
-                q = miller.vector3to4(list(t))
+                q = _ref_vector3to4(t)
                 r, e = _call(box.vector_crystal_to_cartesian, q)
                 B.add('vector_cart:4float', f'vc2c {hx} {atol_s} {Vs} ' + cm.frs(q), r, e, _cmp_close(1e-13, 1e-13),
                       {'cell': label, 'uvtw': q.tolist()})
@@ -583,6 +605,10 @@ def correspond(ctx):
                     if e != 'err:value':
                         ctx.disagree(name + ':unknown', 'empty setting accepted', {'op': name})
                 continue
+            if np.asarray(res).shape != S.shape:
+                ctx.disagree(name + ':shape', f'{name}: result shape {np.asarray(res).shape} for input {S.shape}',
+                             {'op': name, 'setting': setting})
+                continue
             for t, r in zip(small, res):
                 B.add(name, f'{op} {setting} %d %d %d' % t, r, None, _cmp_close(1e-14, 1e-15),
                       {'setting': setting, 'uvw': list(t)}, sample={'op': name, 'setting': setting, 'uvw': list(t)})
@@ -595,14 +621,9 @@ def correspond(ctx):
     B.run()
 
     # ---- E. reduce_indices / all_indices ----------------------------------------------------
-    red = miller.reduce_indices(T) if False else None
-    with np.errstate(all='ignore'):
-        red = miller.reduce_indices(T)
-    if red.dtype.kind not in 'iu':
-        ctx.disagree('reduce_indices', f'reduce_indices returned dtype {red.dtype}, the model returns integers',
-                     {'op': 'reduce_indices', 'dtype': str(red.dtype)})
-    for t, r in zip(tri, red):
-        B.add('reduce_indices', 'reduce %d %d %d' % t, r, None, _cmp_ints, list(t), nontrivial=(t != (0, 0, 0)),
+    rrows, red = _vcall(miller.reduce_indices, T)
+    for t, (r, e) in zip(tri, rrows):
+        B.add('reduce_indices', 'reduce %d %d %d' % t, r, e, _cmp_ints, list(t), nontrivial=(t != (0, 0, 0)),
               sample={'op': 'reduce_indices', 'idx': list(t)})
     _shape_variants(ctx, 'reduce_indices', miller.reduce_indices, T, red)
     for _ in range(ctx.n(500, 5000)):
@@ -619,10 +640,9 @@ def correspond(ctx):
         B.add('reduce_indices:shape', 'reduce ' + ' '.join(map(str, bad)), r, e, _cmp_ints, bad, nontrivial=False)
     for m in range(0, ctx.n(5, 9)):
         for rflag in (False, True):
-            with np.errstate(all='ignore'):
-                arr = miller.all_indices(m, reduce=rflag)
+            arr, e = _call(miller.all_indices, m, reduce=rflag)
 
-            def cmp_all(impl, out, arr=arr):
+            def cmp_all(impl, out):
                 toks = out.split()
                 cnt = int(toks[0])
                 flat = [int(t) for t in toks[1:]]
@@ -632,8 +652,8 @@ def correspond(ctx):
                 if a2.shape != (cnt, 3) or a2.ravel().tolist() != flat:
                     return f'implementation lists {a2.shape[0]} rows, model {cnt}; or order/content differs'
                 return None
-            B.add('all_indices', f'allidx {m} {1 if rflag else 0}', arr, None, cmp_all, {'maxindex': m, 'reduce': rflag},
-                  nontrivial=m > 0, sample={'op': 'all_indices', 'maxindex': m, 'reduce': rflag, 'rows': int(arr.shape[0])})
+            B.add('all_indices', f'allidx {m} {1 if rflag else 0}', arr, e, cmp_all, {'maxindex': m, 'reduce': rflag},
+                  nontrivial=m > 0, sample={'op': 'all_indices', 'maxindex': m, 'reduce': rflag})
     B.run()
 
     # ---- F. fromstring ------------------------------------------------------------------------
@@ -687,6 +707,8 @@ def _malformed(rng, n):
 def _shape_variants(ctx, name, f, flat_in, flat_out, extra=None):
     """numpy shape plumbing: list input, single rows, nested leading shapes give the flat result reshaped."""
     np = _np()
+    if flat_out is None:
+        return          # the flat call itself raised: already reported row by row
     n = flat_in.shape[0]
     n2 = (n // 6) * 6
     variants = [('list', flat_in[:n2].tolist(), flat_out[:n2]),
@@ -767,7 +789,7 @@ def _o_same_direction(ctx, np, miller, hexbox, t):
     V = [[_F(x) for x in row] for row in hexbox.vects]
     a1, a2, c = V
     a3 = [-(x + y) for x, y in zip(a1, a2)]
-    q = miller.vector3to4(t)
+    q = _ref_vector3to4(t)
     cart4, e = _call(hexbox.vector_crystal_to_cartesian, q)
     cart3 = hexbox.vector_crystal_to_cartesian(t)
     want3 = [t[0] * a1[i] + t[1] * a2[i] + t[2] * c[i] for i in range(3)]
@@ -896,6 +918,17 @@ def _o_reduce_shape(ctx, np, miller, rows, shape):
                     replay)
 
 
+def _o_all_indices(ctx, np, miller, m):
+    allr = miller.all_indices(m, reduce=True)
+    alln = miller.all_indices(m)
+    want = sorted({tuple(t) for t in _triples(m) if t != (0, 0, 0)})
+    wantr = sorted(t for t in want if math.gcd(math.gcd(abs(t[0]), abs(t[1])), abs(t[2])) == 1)
+    if sorted(map(tuple, alln.tolist())) != want or len(alln) != len(want) \
+            or list(map(tuple, allr.tolist())) != wantr:
+        ctx.violate('all_indices', f'all_indices({m}) does not list exactly the non-zero triples / the coprime triples',
+                    {'op': 'all_indices', 'maxindex': m})
+
+
 def _o_string(ctx, np, miller, s, frac, idx):
     r, e = _call(miller.fromstring, s)
     f = Fraction(1) if frac is None else Fraction(frac[0], frac[1])
@@ -921,6 +954,15 @@ def _o_family(ctx, np, fam, args, box):
                     {'op': 'family', 'family': fam, 'args': list(args)})
 
 
+def _guard(ctx, key, replay, fn, *args):
+    """an oracle clause must not die on a raising implementation: report the exception as the failing input."""
+    try:
+        with _np().errstate(all='ignore'):
+            fn(*args)
+    except Exception as e:  # noqa
+        ctx.violate(key + ':raises', f'{key}: the implementation raised {type(e).__name__}: {e} on {replay}', replay)
+
+
 def search(ctx, broken):
     np = _np()
     import atomman as am
@@ -932,14 +974,15 @@ def search(ctx, broken):
     # 1. round trips, exhaustive
     for t in tri:
         ctx.stats.case('oracle:roundtrip34', t)
-        _o_roundtrip34(ctx, np, miller, t)
+        _guard(ctx, 'roundtrip34', {'op': 'roundtrip34', 'idx': list(t)}, _o_roundtrip34, ctx, np, miller, t)
     # 2. same Cartesian direction in hexagonal cells
     for _ in range(ctx.n(3, 10) * mult):
         a, b, c = _generic_lengths(rng)
         hb = am.Box.hexagonal(a, c)
         for t in rng.sample(tri, ctx.n(150, 600)):
             ctx.stats.case('oracle:same_direction', (a, c, t))
-            _o_same_direction(ctx, np, miller, hb, t)
+            _guard(ctx, 'vector4:direction', {'op': 'same_direction', 'idx': list(t), 'vects': hb.vects.tolist()},
+                   _o_same_direction, ctx, np, miller, hb, t)
     # 3. plane normals: every family + dyadic + float triclinic; exhaustive triples on the first cells
     cells = [(fam, box) for fam, args, box in _family_cells(rng)]
     cells += [('dyadic', _dyadic_cell(rng)) for _ in range(ctx.n(2, 6) * mult)]
@@ -949,27 +992,29 @@ def search(ctx, broken):
         sel = nz if ci < ctx.n(4, 9) else rng.sample(nz, ctx.n(400, 3000))
         for t in sel:
             ctx.stats.case('oracle:normal', (label, ci, t))
-            _o_normal(ctx, np, box, label, t, rng)
+            _guard(ctx, 'plane_normal', {'op': 'normal', 'hkl': list(t), 'vects': box.vects.tolist(), 'cell': label},
+                   _o_normal, ctx, np, box, label, t, rng)
     r, e = _call(cells[0][1].plane_crystal_to_cartesian, [0, 0, 0])
     if e != 'err:value':
         ctx.violate('plane_normal:zero', 'the zero plane index vector is not rejected', {'op': 'normal-zero'})
     # 4. centering
     for setting in SETTINGS:
-        _o_centering_det(ctx, np, miller, setting)
+        _guard(ctx, 'centering:det', {'op': 'centering_det', 'setting': setting}, _o_centering_det, ctx, np, miller, setting)
         for t in _triples(3):
             ctx.stats.case('oracle:centering', (setting, t))
-            _o_centering(ctx, np, miller, setting, t)
+            _guard(ctx, 'centering:inverse', {'op': 'centering', 'setting': setting, 'idx': list(t)},
+                   _o_centering, ctx, np, miller, setting, t)
     # 5. reduce
     for t in tri:
         if t != (0, 0, 0):
             ctx.stats.case('oracle:reduce', t)
-            _o_reduce(ctx, np, miller, t)
+            _guard(ctx, 'reduce', {'op': 'reduce', 'idx': list(t)}, _o_reduce, ctx, np, miller, t)
     for _ in range(ctx.n(500, 5000) * mult):
         g = rng.choice([1, 2, 3, 4, 6, 9, 10])
         x = [g * rng.randint(-12, 12) for _ in range(rng.choice([3, 4]))]
         if any(x):
             ctx.stats.case('oracle:reduce', tuple(x))
-            _o_reduce(ctx, np, miller, x)
+            _guard(ctx, 'reduce', {'op': 'reduce', 'idx': list(x)}, _o_reduce, ctx, np, miller, x)
     for _ in range(ctx.n(60, 600) * mult):
         shape = rng.choice([(2, 2), (2, 3), (3, 2), (4,), (1, 5), (2, 2, 2), (3, 3)])
         cnt = 1
@@ -983,33 +1028,26 @@ def search(ctx, broken):
             if any(x):
                 rows.append(x)
         ctx.stats.case('oracle:reduce-shape', (shape, tuple(map(tuple, rows))))
-        _o_reduce_shape(ctx, np, miller, rows, shape)
-    with np.errstate(all='ignore'):
-        for m in range(1, ctx.n(4, 7)):
-            allr = miller.all_indices(m, reduce=True)
-            alln = miller.all_indices(m)
-            ctx.stats.case('oracle:all_indices', m)
-            want = sorted({tuple(t) for t in _triples(m) if t != (0, 0, 0)})
-            wantr = sorted(t for t in want if math.gcd(math.gcd(abs(t[0]), abs(t[1])), abs(t[2])) == 1)
-            if sorted(map(tuple, alln.tolist())) != want or len(alln) != len(want) \
-                    or list(map(tuple, allr.tolist())) != wantr:
-                ctx.violate('all_indices', f'all_indices({m}) does not list exactly the non-zero triples / the coprime triples',
-                            {'op': 'all_indices', 'maxindex': m})
+        _guard(ctx, 'reduce:leading-shape', {'op': 'reduce_shape', 'rows': rows, 'shape': list(shape)},
+               _o_reduce_shape, ctx, np, miller, rows, shape)
+    for m in range(1, ctx.n(4, 7)):
+        ctx.stats.case('oracle:all_indices', m)
+        _guard(ctx, 'all_indices', {'op': 'all_indices', 'maxindex': m}, _o_all_indices, ctx, np, miller, m)
     # 6. strings
     for it in range(ctx.n(800, 8000) * mult):
         idx = [rng.randint(-N, N) for _ in range(rng.choice([3, 4]))]
         frac = None if rng.random() < 0.4 else (rng.choice([1, 2, 3, -1, 5, 7]), rng.choice([1, 2, 3, 4, 6, 8, 9]))
         s = _render(rng, frac, BRACKETS[it % 4], idx, messy=(it % 2 == 0))
         ctx.stats.case('oracle:string', s)
-        _o_string(ctx, np, miller, s, frac, idx)
+        _guard(ctx, 'fromstring', {'op': 'string', 'string': s, 'frac': frac, 'idx': idx}, _o_string, ctx, np, miller, s, frac, idx)
     # 7. families
     for _ in range(ctx.n(40, 400) * mult):
         for fam, args, box in _family_cells(rng):
             ctx.stats.case('oracle:family', (fam, args))
-            _o_family(ctx, np, fam, args, box)
+            _guard(ctx, 'family:' + fam, {'op': 'family', 'family': fam, 'args': list(args)}, _o_family, ctx, np, fam, args, box)
 
 
-def replay(ctx, payload):
+def _replay(ctx, payload):
     """re-run one stored case (oracle cases by input; model disagreements by driver line) on the current tree."""
     np = _np()
     import atomman as am
@@ -1029,6 +1067,8 @@ def replay(ctx, payload):
         _o_centering_det(ctx, np, miller, r['setting'])
     elif op == 'reduce':
         _o_reduce(ctx, np, miller, r['idx'])
+    elif op == 'all_indices':
+        _o_all_indices(ctx, np, miller, r['maxindex'])
     elif op == 'reduce_shape':
         _o_reduce_shape(ctx, np, miller, r['rows'], tuple(r['shape']))
     elif op == 'string':
@@ -1043,7 +1083,12 @@ def replay(ctx, payload):
         if ctx.driver is not None:
             correspond(ctx)
         search(ctx, True)
-    print(f'replay {op}: {"still fails" if ctx.violations else "passes now"}')
+
+
+def replay(ctx, payload):
+    r = payload.get('replay', {})
+    _guard(ctx, 'replay', r, _replay, ctx, payload)
+    print(f'replay {r.get("op")}: {"still fails" if (ctx.violations or ctx.disagreements) else "passes now"}')
 
 
 MANIFEST = {
